@@ -176,8 +176,11 @@ func (m *genMsg) vouchBytes(b []byte) {
 }
 
 var protoCounts = []int{3, 0, 127, 128, 129, 1023, 1024, 1025, 3000}
-var addrCounts = []int{2, 0, 1, 20, 21, 64, 65, 499, 500, 501, 900}
-var recAddrCounts = []int{2, 0, 21, 500, 501, 700}
+
+// list sizes sit around the three caps that exist: 20 (kept after a disconnect), 64 (unconnected addresses per
+// peer in the address book), 500 (connected)
+var addrCounts = []int{2, 0, 1, 20, 21, 60, 64, 65, 100, 499, 500, 501, 700, 900}
+var recAddrCounts = []int{2, 0, 21, 64, 65, 100, 500, 501, 700}
 var chunkCounts = []int{1, 2, 3, 9, 10, 11}
 
 const (
@@ -218,9 +221,12 @@ type scalars struct {
 }
 
 // genRecord returns the bytes of a signed-record field of the given kind.
-func genRecord(g simrt.Gen, w *world, m *genMsg, kind int, portBase int) []byte {
+func genRecord(g simrt.Gen, w *world, m *genMsg, kind int, portBase int, over int) []byte {
 	byzIP := ip4(w.byz.ip)
-	nAddr := recAddrCounts[g.Weighted(6, 1, 1, 1, 2, 1)]
+	nAddr := recAddrCounts[g.Weighted(6, 1, 1, 1, 2, 2, 1, 2, 1)]
+	if over > 0 {
+		nAddr = over
+	}
 	var addrs []ma.Multiaddr
 	for i := 0; i < nAddr; i++ {
 		a, _ := ma.NewMultiaddrBytes(rawTCP(byzIP, portBase+i))
@@ -241,6 +247,9 @@ func genRecord(g simrt.Gen, w *world, m *genMsg, kind int, portBase int) []byte 
 		}
 		if nAddr > 500 {
 			m.feat("addr-cap-exceeded")
+		}
+		if nAddr > 64 {
+			m.feat("more-than-64-addrs")
 		}
 		return sealRecord(w.byz.key, w.byz.id, addrs, seq, "")
 	case recValidOther:
@@ -306,7 +315,9 @@ func pad(s string, n int) string {
 }
 
 // genMessage draws one message. idx numbers the messages of the run (the tag).
-func genMessage(g simrt.Gen, w *world, idx int) *genMsg {
+// genMessage draws one message. over > 0 forces the size of the address list that will be USED (the unsigned list,
+// or the record when the message carries a valid one) and keeps forged records out of it.
+func genMessage(g simrt.Gen, w *world, idx int, over int) *genMsg {
 	m := &genMsg{tag: fmt.Sprintf("byz/m%d", idx), vouched: map[string]bool{}}
 	byzIP := ip4(w.byz.ip)
 
@@ -328,7 +339,10 @@ func genMessage(g simrt.Gen, w *world, idx int) *genMsg {
 		m.feat("proto-cap-exceeded")
 	}
 
-	nAddr := addrCounts[g.Weighted(8, 1, 1, 1, 1, 1, 1, 1, 1, 3, 2)]
+	nAddr := addrCounts[g.Weighted(8, 1, 1, 1, 1, 1, 1, 3, 3, 1, 1, 3, 1, 1)]
+	if over > 0 {
+		nAddr = over
+	}
 	portBase := 6000 + 1000*(idx%2) // two address families so that consecutive messages differ
 	var laddrs [][]byte
 	for i := 0; i < nAddr; i++ {
@@ -371,15 +385,21 @@ func genMessage(g simrt.Gen, w *world, idx int) *genMsg {
 	if len(laddrs) > 500 {
 		m.feat("addr-cap-exceeded")
 	}
+	if len(laddrs) > 64 {
+		m.feat("more-than-64-addrs")
+	}
 	for _, b := range laddrs {
 		m.vouchBytes(b)
 	}
 
 	// --- scalar fields: a primary set and, sometimes, a second set placed in another chunk
 	recKind := g.Weighted(4, 4, 2, 1, 2, 2, 1, 1, 1, 1)
+	if over > 0 && recKind > recValidSelf {
+		recKind = recNone
+	}
 	keyKind := g.Weighted(5, 2, 3, 1, 1)
 	var prim, alt scalars
-	prim.rec = genRecord(g, w, m, recKind, 7000+1000*(idx%2))
+	prim.rec = genRecord(g, w, m, recKind, 7000+1000*(idx%2), over)
 	if recKind >= recValidOther {
 		m.feat("forged-record-" + recNames[recKind])
 	}
@@ -416,13 +436,13 @@ func genMessage(g simrt.Gen, w *world, idx int) *genMsg {
 		s := pad("pv/", 3000)
 		prim.pv = &s
 	}
-	dup := g.Chance(1, 4)
+	dup := g.Chance(1, 4) && over == 0
 	altRecKind, altKeyKind := recNone, keyAbsent
 	if dup {
 		m.feat("scalar-duplicated-across-chunks")
 		altRecKind = g.Weighted(0, 2, 2, 1, 2, 2, 1, 1, 1, 1)
 		altKeyKind = g.Weighted(2, 0, 3, 1, 1)
-		alt.rec = genRecord(g, w, m, altRecKind, 8000)
+		alt.rec = genRecord(g, w, m, altRecKind, 8000, 0)
 		if altRecKind >= recValidOther {
 			m.feat("forged-record-" + recNames[altRecKind])
 		}
